@@ -59,6 +59,8 @@ pub struct Gate {
 pub struct HCtx {
     pub scn: Arc<Scenario>,
     pub next_inst: u32,
+    /// id of the last task that existed before the current spawn entry point was called
+    pub spawn_mark: Option<u32>,
     pub cb_count: BTreeMap<ActorIdx, u32>,
     pub start_count: BTreeMap<ActorIdx, u32>,
     pub recreate_hint: Option<ActorIdx>,
@@ -76,6 +78,7 @@ pub fn install(scn: Arc<Scenario>) {
         *h.borrow_mut() = Some(HCtx {
             scn,
             next_inst: 0,
+            spawn_mark: None,
             cb_count: BTreeMap::new(),
             start_count: BTreeMap::new(),
             recreate_hint: None,
